@@ -40,6 +40,7 @@ pub fn answer_kind(kind: &str, lines: &[String], replies: &[String]) -> String {
         "noslots" => oracle_noslots(lines, replies),
         "stopcont" => oracle_stopcont(lines, replies),
         "signsym" => oracle_signsym(lines),
+        "brokencont" => oracle_brokencont(lines),
         "samesession" => {
             // two sessions (separated by a line "----"), every line typed in turn: the transcripts are equal
             let i = lines.iter().position(|l| l == "----").unwrap_or(lines.len());
@@ -919,7 +920,7 @@ pub fn gen_c17<W: Write>(w: &mut W, tier: &str, seed: u64) {
     let mut rng = Rng::new(seed ^ 0xC17);
     let n = if tier == "thorough" { 50_000 } else { 1_500 };
     // numeric field spellings and their integer values
-    let nums: &[(&str, i64)] = &[("12", 12), (" 12 ", 12), ("+7", 7), ("-12", -12), ("1E2", 100), ("1.5E1", 15), ("2D1", 20), ("&H1F", 31), ("&17", 15), ("12.0", 12), ("", 0), ("  ", 0), ("0", 0), ("32767", 32767), ("-0", 0), ("3!", 3), ("4#", 4), ("5%", 5), (".5E1", 5), ("5.", 5)];
+    let nums: &[(&str, i64)] = &[("12", 12), (" 12 ", 12), ("+7", 7), ("-12", -12), ("1E2", 100), ("1.5E1", 15), ("2D1", 20), ("&H1F", 31), ("&H0D", 13), ("&hde", 222), ("&H1D0", 464), ("&HE", 14), ("&H7ED", 2029), ("&17", 15), ("12.0", 12), ("", 0), ("  ", 0), ("0", 0), ("32767", 32767), ("-0", 0), ("3!", 3), ("4#", 4), ("5%", 5), (".5E1", 5), ("5.", 5)];
     let bad: &[&str] = &["12abc", "abc", "1 2", "--1", "15x", "&HG", "\"5\"", "1E", "$"];
     let strs: &[(&str, &str)] = &[("éa", "éa"), ("日本 語", "日本 語"), (" ü ", "ü"), ("\"é,ü\"", "é,ü"), ("abc", "abc"), ("  abc  ", "abc"), ("\"a,b\"", "a,b"), ("\" x \"", " x "), ("", ""), ("\"\"", ""), ("hello world", "hello world"), ("\"q\" ", "q")];
     // a field that is exactly one double quote is ordinary text (nothing to strip)
@@ -1187,6 +1188,32 @@ pub fn gen_c16<W: Write>(w: &mut W, tier: &str, seed: u64) {
             let v = respell(&mut rng, l, true);
             emit(w, "C16", "spelling", &[l.to_string(), v, "run".into()], &[]);
         }
+    }
+    // a number directly followed by a word: the blank between them is optional and changes nothing, whatever the
+    // word's first letter is (E and D included) and whatever the size of the results
+    let words = ["ELSE", "EQV", "AND", "OR", "XOR", "IMP", "MOD", "TO", "STEP", "THEN", "GOTO", "DIV"];
+    let k = if tier == "thorough" { 4_000 } else { 300 };
+    for _ in 0..k {
+        let nums = [rng.below(400) as i64, rng.below(400) as i64, rng.below(40000) as i64, rng.below(9) as i64 + 1];
+        let wd = *rng.pick(&words);
+        let spaced = match wd {
+            "ELSE" => format!("A={}:IF A THEN PRINT {}*{} ELSE PRINT {}", nums[3] % 2, nums[0], nums[1], nums[2]),
+            "TO" | "STEP" => format!("FOR I={} TO {} STEP {}:PRINT I*{};:NEXT", nums[3], nums[3] + 3, nums[3], nums[0]),
+            "THEN" | "GOTO" => format!("IF {} THEN PRINT {}*{}", nums[0], nums[1], nums[0]),
+            "DIV" => format!("D={}:PRINT {}*{} /D", nums[3], nums[0], nums[1]),
+            _ => format!("PRINT {}*{} {} {}", nums[0], nums[1], wd, nums[2] % 32768),
+        };
+        // the same line with the blanks between digits and letters removed
+        let b: Vec<char> = spaced.chars().collect();
+        let mut glued = String::new();
+        for i in 0..b.len() {
+            if b[i] == ' ' && i > 0 && i + 1 < b.len() && b[i - 1].is_ascii_digit() && b[i + 1].is_ascii_alphabetic() {
+                continue;
+            }
+            glued.push(b[i]);
+        }
+        emit(w, "C16", "spelling", &[spaced.clone(), glued.clone(), "run".into()], &[]);
+        emit(w, "C16", "spelling", &[spaced, glued, "list".into()], &[]);
     }
     let m = if tier == "thorough" { 20_000 } else { 1_000 };
     for _ in 0..m {
@@ -2303,5 +2330,169 @@ pub fn gen_c09_c10_sessions<W: Write>(w: &mut W, prop: &str) {
             (vec!["10 DEF FNA(X)=X*2", "20 PRINT FNA(2)", "RUN", "PRINT FNA(5)", "CLEAR", "PRINT FNA(5)"], " 4 \nREADY.\n 10 \nREADY.\nREADY.\n?UNDEFINED USER FUNCTION\nREADY.\n"),
         ];
         emit_sessions(w, "C10", &cases);
+    }
+}
+
+/// Fixed sessions added after the fourth round of seeded changes (second half): each states, for one property,
+/// what the manual's wording demands of a short session that a property-breaking change was seen to get wrong.
+pub fn gen_round4<W: Write>(w: &mut W, prop: &str) {
+    const R: &str = "READY.\n";
+    let ifc = format!("?ILLEGAL FUNCTION CALL\n{}", R);
+    let cases: Vec<(Vec<&str>, String)> = match prop {
+        // the TRON trace is output like any other: zones, TAB and POS count from the true column
+        "C11" => vec![
+            (vec!["10 PRINT \"ABCDEFGH\";", "20 PRINT ,\"X\"", "TRON", "RUN"], format!("{}[10]ABCDEFGH[20]{}X\n{}", R, " ".repeat(12), R)),
+            (vec!["10 PRINT \"ABCDEFGH\";", "20 PRINT TAB(20);\"X\";", "30 PRINT POS(0)", "TRON", "RUN"], format!("{}[10]ABCDEFGH[20]    X[30] 25 \n{}", R, R)),
+            (vec!["10 PRINT 1;", "20 PRINT 2,3", "TRON", "RUN"], format!("{}[10] 1 [20] 2 {}3 \n{}", R, " ".repeat(15), R)),
+        ],
+        // a bare DELETE is refused wherever it stands, and refusing it erases nothing
+        "C15" => vec![
+            (vec!["10 PRINT 1", "DELETE:PRINT 2", "LIST", "IF 1 THEN DELETE ELSE PRINT 2", "LIST", "PRINT 1:DELETE :PRINT 2", "LIST"], format!("{0}10 PRINT 1\n{1}{0}10 PRINT 1\n{1}{0}10 PRINT 1\n{1}", ifc, R)),
+            (vec!["10 PRINT 1", "IF 0 THEN PRINT 1 ELSE DELETE:PRINT 3", "LIST", "DELETE ELSE", "LIST", "DELETE", "LIST"], format!("{0}10 PRINT 1\n{1}{0}10 PRINT 1\n{1}{0}10 PRINT 1\n{1}", ifc, R)),
+            (vec!["5 DELETE:END", "10 PRINT 1", "RUN", "LIST"], format!("?ILLEGAL FUNCTION CALL IN 5:3\n{0}5 DELETE:END\n10 PRINT 1\n{0}", R)),
+        ],
+        // blanks between a number and a following word are optional: both spellings are the same program
+        "C16" => vec![
+            (vec!["10 A=200:IF A THEN PRINT 200*200ELSE PRINT 0", "RUN", "LIST", "10 A=200:IF A THEN PRINT 200*200 ELSE PRINT 0", "RUN", "LIST"], format!("?OVERFLOW IN 10\n{0}10 A=200:IF A THEN PRINT 200*200 ELSE PRINT 0\n{0}?OVERFLOW IN 10\n{0}10 A=200:IF A THEN PRINT 200*200 ELSE PRINT 0\n{0}", R)),
+            (vec!["10 A=100:IF A THEN PRINT 400*100EQV 0", "RUN", "10 A=100:IF A THEN PRINT 400*100 EQV 0", "RUN"], format!("?OVERFLOW IN 10\n{0}?OVERFLOW IN 10\n{0}", R)),
+        ],
+        // a hexadecimal reply may contain the digits D and E
+        "C17" => vec![
+            (vec!["10 INPUT A:PRINT A", "RUN", "RUN", "PRINT VAL(\"&H0D\");VAL(\"&HD\");VAL(\"&H1D0\");&H0D;VAL(\"&H0E\");VAL(\"&HDE\")"], format!("? &H0D\n 13 \n{0}? &hdd\n 221 \n{0} 13  13  464  13  14  222 \n{0}", R)),
+        ],
+        // a reply with too many fields is asked for again; whatever was typed, nothing stays behind
+        "C18" => vec![
+            (vec!["10 INPUT A,B:PRINT A;B", "RUN", "RETURN", "NEXT"], format!("? 1,2,3\n?REDO FROM START\n? 1,2\n 1  2 \n{0}?RETURN WITHOUT GOSUB\n{0}?NEXT WITHOUT FOR\n{0}", R)),
+        ],
+        // after DELETE took lines away nothing may resume into what is gone
+        "C19" => vec![
+            (vec!["10 PRINT \"A\"", "20 STOP", "30 PRINT \"B\":GOTO 50", "50 PRINT \"C\"", "RUN", "DELETE 50", "CONT"], format!("A\n?BREAK IN 20\n{0}{0}?CAN'T CONTINUE\n{0}", R)),
+            (vec!["10 GOSUB 100:PRINT \"BACK\":END", "100 STOP:RETURN", "RUN", "DELETE 10", "RETURN", "CONT"], format!("?BREAK IN 100\n{0}{0}?RETURN WITHOUT GOSUB\n{0}?CAN'T CONTINUE\n{0}", R)),
+            (vec!["10 FOR I=1 TO 3", "20 STOP", "30 NEXT", "RUN", "DELETE 10", "NEXT", "CONT"], format!("?BREAK IN 20\n{0}{0}?NEXT WITHOUT FOR\n{0}?CAN'T CONTINUE\n{0}", R)),
+        ],
+        // the highest line number is a line like any other, also as the target of a direct statement
+        "C20" => vec![
+            (vec!["10 PRINT \"X\"", "65529 PRINT \"LAST\"", "GOTO 65529", "GOSUB 65529:PRINT \"BACK\"", "RUN 65529", "RUN"], format!("LAST\n{0}LAST\n{0}LAST\n{0}X\nLAST\n{0}", R)),
+            (vec!["65529 PRINT \"LAST\":RETURN", "GOSUB 65529:PRINT \"BACK\"", "FOR I=1 TO 2:GOSUB 65529:NEXT"], format!("LAST\nBACK\n{0}LAST\nLAST\n{0}", R)),
+            (vec!["65528 PRINT \"P\";", "65529 PRINT \"LAST\"", "GOTO 65528", "ON 1 GOTO 65529", "IF 1 THEN 65529", "RESTORE 65529"], format!("PLAST\n{0}LAST\n{0}LAST\n{0}{0}", R)),
+        ],
+        _ => vec![],
+    };
+    for (lines, expected) in &cases {
+        let mut v = vec![hex(expected)];
+        v.extend(lines.iter().map(|l| l.to_string()));
+        let replies: Vec<String> = match prop {
+            "C17" => vec!["&H0D".into(), "&hdd".into()],
+            "C18" => vec!["1,2,3".into(), "1,2".into()],
+            _ => vec![],
+        };
+        emit(w, prop, "session", &v, &replies);
+    }
+    if prop == "C18" || prop == "C17" {
+        // INPUT of k variables inside a loop: a reply with more fields is asked for again (so nothing of it stays
+        // on the stack), and after the loop no frame is left
+        for k in 1..=4usize {
+            for j in 1..=3usize {
+                let vars: Vec<String> = (0..k).map(|i| format!("V{}", i)).collect();
+                let good: Vec<String> = (0..k).map(|i| format!("{}", i + 1)).collect();
+                let mut surplus = good.clone();
+                for x in 0..j {
+                    surplus.push(format!("{}", 90 + x));
+                }
+                let mut expected = String::new();
+                let mut replies = vec![];
+                for _ in 0..3 {
+                    expected.push_str(&format!("? {}\n?REDO FROM START\n? {}\n", surplus.join(","), good.join(",")));
+                    replies.push(surplus.join(","));
+                    replies.push(good.join(","));
+                }
+                expected.push_str(&format!("DONE {} \n{}?RETURN WITHOUT GOSUB\n{}?NEXT WITHOUT FOR\n{}", k, R, R, R));
+                let v = vec![hex(&expected), format!("10 FOR I=1 TO 3:INPUT {}:NEXT:PRINT \"DONE\";V{}", vars.join(","), k - 1), "RUN".to_string(), "RETURN".to_string(), "NEXT".to_string()];
+                emit(w, prop, "session", &v, &replies);
+            }
+        }
+    }
+}
+
+
+/// C19 `brokencont`: a program stopped at STOP is edited so that it no longer compiles (a branch target is taken
+/// away); whatever is typed next to get back into it (CONT, RETURN, NEXT, GOTO n, RUN n, RUN), none of its lines run.
+/// Every program line prints a text starting with `L`; direct statements that do not enter the program still work.
+fn oracle_brokencont(lines: &[String]) -> String {
+    let i = lines.iter().position(|l| l == "----").unwrap_or(lines.len());
+    let j = lines.iter().rposition(|l| l == "----").unwrap_or(lines.len());
+    let mut r = Run::new();
+    r.lines(&lines[..i]);
+    r.line("RUN");
+    let first = r.take();
+    if !first.contains("?BREAK") {
+        return fail(format!("the program did not stop: {:?}", first));
+    }
+    r.lines(&lines[i + 1..j]);
+    // any direct statement makes the interpreter look at the edited program
+    r.line("Z=Z");
+    r.take();
+    if r.rt.get_listing().indirect_errors.is_empty() {
+        // the edit left a program that compiles: nothing to decide
+        return "ok".into();
+    }
+    for l in &lines[(j + 1).min(lines.len())..] {
+        r.line(l);
+        let t = r.take();
+        if t.contains('L') && t.lines().any(|x| x.starts_with('L')) {
+            return fail(format!("after the edit {:?} ran program lines: {:?}", l, t));
+        }
+    }
+    r.line("PRINT 7*6");
+    let t = r.take();
+    if t != " 42 \nREADY.\n" { fail(format!("direct statement afterwards: {:?}", t)) } else { "ok".into() }
+}
+
+pub fn gen_c19_broken<W: Write>(w: &mut W, tier: &str, seed: u64) {
+    let mut rng = Rng::new(seed ^ 0xC19B);
+    let n = if tier == "thorough" { 6_000 } else { 200 };
+    for _ in 0..n {
+        let k = 4 + rng.below(5);
+        let stop_at = 1 + rng.below(k - 2);
+        let mut prog: Vec<String> = vec![];
+        let nums: Vec<usize> = (0..k).map(|x| 10 * (x + 1)).collect();
+        // the branch sits after the STOP or before it (already passed), its target anywhere else
+        let br = loop { let b = rng.below(k); if b != stop_at { break b; } };
+        let tgt = loop { let t = rng.below(k); if t != stop_at && t != br { break t; } };
+        let form = rng.below(5);
+        for x in 0..k {
+            let body = if x == stop_at {
+                "STOP".to_string()
+            } else if x == br {
+                match form {
+                    0 => format!("PRINT \"L{}\":IF Z THEN GOTO {}", nums[x], nums[tgt]),
+                    1 => format!("PRINT \"L{}\":IF Z THEN GOSUB {}", nums[x], nums[tgt]),
+                    2 => format!("PRINT \"L{}\":ON Z GOTO {}", nums[x], nums[tgt]),
+                    3 => format!("PRINT \"L{}\":IF Z THEN {}", nums[x], nums[tgt]),
+                    _ => format!("PRINT \"L{}\":IF Z THEN RESTORE {}", nums[x], nums[tgt]),
+                }
+            } else {
+                format!("PRINT \"L{}\"", nums[x])
+            };
+            prog.push(format!("{} {}", nums[x], body));
+        }
+        // some with an open FOR or GOSUB frame at the STOP
+        if rng.chance(1, 3) {
+            prog.push(format!("5 FOR I=1 TO 2"));
+            prog.push(format!("{} NEXT", nums[k - 1] + 5));
+        } else if rng.chance(1, 2) {
+            prog.push(format!("5 GOSUB {}:END", nums[0]));
+            prog.push(format!("{} RETURN", nums[k - 1] + 5));
+        }
+        let mut v = prog.clone();
+        v.push("----".into());
+        v.push(match rng.below(3) { 0 => format!("DELETE {}", nums[tgt]), 1 => format!("{}", nums[tgt]), _ => format!("DELETE {}-{}", nums[tgt], nums[tgt]) });
+        v.push("----".into());
+        let resumes = ["CONT", "RETURN", "NEXT", "RUN", "GOTO 10", "GOSUB 10", "RUN 10"];
+        for _ in 0..1 + rng.below(3) {
+            let c = *rng.pick(&resumes);
+            v.push(if c.ends_with("10") { format!("{}{}", &c[..c.len() - 2], nums[rng.below(k)]) } else { c.to_string() });
+        }
+        emit(w, "C19", "brokencont", &v, &[]);
     }
 }
